@@ -47,7 +47,8 @@ pub const ALPHABET: [[u8; 4]; 12] = [
 const POISON: [u8; 4] = [1, 254, 77, 255];
 
 /// backgrounds: None (= opaque black by the API's default), opaque white, a translucent one
-const BACKGROUNDS: [Option<[u8; 4]>; 3] = [None, Some([255, 255, 255, 255]), Some([10, 200, 30, 128])];
+/// no background, opaque, translucent, and two fully transparent ones (with and without colour in the invisible channels)
+const BACKGROUNDS: [Option<[u8; 4]>; 5] = [None, Some([255, 255, 255, 255]), Some([10, 200, 30, 128]), Some([0, 0, 0, 0]), Some([90, 40, 200, 0])];
 
 const SIZES: [usize; 11] = [1, 2, 3, 4, 5, 6, 7, 8, 9, 10, 256];
 /// requested sizes used for the multiset images (1..=8 all mean "prune to 8")
@@ -711,9 +712,17 @@ fn eval_find(colors: &[[u8; 3]], q: [u8; 3]) -> Option<(String, String)> {
         return Some(("palette-content".into(), "colors()/size() differ from the list the palette was built from".into()));
     }
     let best = colors.iter().map(|c| dist(q, *c)).min().unwrap();
-    match catch(|| pal.find(RGBA::new(q[0], q[1], q[2], 255))) {
+    let tree = match catch(|| pal.find(RGBA::new(q[0], q[1], q[2], 255))) {
         Err(p) => Some((p.key(), format!("find panicked: {} ({}:{})", p.message, p.file, p.line))),
         Ok(got) => judge_find(colors, q, got, best),
+    };
+    if tree.is_some() {
+        return tree;
+    }
+    // the palette's other public lookup, the linear one
+    match catch(|| pal.find_naive(RGBA::new(q[0], q[1], q[2], 255))) {
+        Err(p) => Some((format!("find_naive:{}", p.key()), format!("find_naive panicked: {} ({}:{})", p.message, p.file, p.line))),
+        Ok(got) => judge_find(colors, q, got, best).map(|(k, d)| (format!("find_naive:{k}"), format!("find_naive: {d}"))),
     }
 }
 
@@ -768,10 +777,16 @@ fn sweep_small_palettes(sh: &Shared) -> (u64, u64) {
         let mut ties = 0u64;
         for q in &queries {
             let best = colors.iter().map(|c| dist(*q, *c)).min().unwrap();
-            let r = match catch(|| pal.find(RGBA::new(q[0], q[1], q[2], 255))) {
+            let mut r = match catch(|| pal.find(RGBA::new(q[0], q[1], q[2], 255))) {
                 Err(p) => Some((p.key(), format!("find panicked: {}", p.message))),
                 Ok(got) => judge_find(&colors, *q, got, best),
             };
+            if r.is_none() {
+                r = match catch(|| pal.find_naive(RGBA::new(q[0], q[1], q[2], 255))) {
+                    Err(p) => Some((format!("find_naive:{}", p.key()), format!("find_naive panicked: {}", p.message))),
+                    Ok(got) => judge_find(&colors, *q, got, best).map(|(k, d)| (format!("find_naive:{k}"), format!("find_naive: {d}"))),
+                };
+            }
             if let Some((kind, detail)) = r {
                 sh.add_find(&kind, &colors, *q, "lattice", detail);
             }
@@ -838,6 +853,34 @@ pub fn structured_palettes() -> Vec<(&'static str, Vec<[u8; 3]>)> {
     }
     out.push(("constant-red-plane-64", plane));
     out
+}
+
+/// Both public lookups for the queries at and right next to the palette's own entries (every entry, every offset in
+/// {-1, 0, 1}^3): where an exact or almost exact match exists the search may not stop at the first close entry.
+fn sweep_near_entries(sh: &Shared, name: &'static str, colors: &[[u8; 3]]) -> u64 {
+    let mut n = 0u64;
+    let mut seen = std::collections::HashSet::new();
+    for c in colors {
+        for dr in -1i32..=1 {
+            for dg in -1i32..=1 {
+                for db in -1i32..=1 {
+                    let q = [c[0] as i32 + dr, c[1] as i32 + dg, c[2] as i32 + db];
+                    if q.iter().any(|v| !(0..=255).contains(v)) {
+                        continue;
+                    }
+                    let q = [q[0] as u8, q[1] as u8, q[2] as u8];
+                    if !seen.insert(q) {
+                        continue;
+                    }
+                    n += 1;
+                    if let Some((kind, detail)) = eval_find(colors, q) {
+                        sh.add_find(&kind, colors, q, name, detail);
+                    }
+                }
+            }
+        }
+    }
+    n
 }
 
 /// all 2^24 queries against brute force
@@ -944,6 +987,9 @@ fn sweep_all(sh: &Shared, ctx: &Ctx) -> Sizes {
         if !live(sh) {
             return s;
         }
+        // both lookups at and around every entry (all palettes, both tiers)
+        let near = sweep_near_entries(sh, name, &colors);
+        sh.find_evals.fetch_add(near, Ordering::Relaxed);
         // quick: the xterm palette and the small degenerate ones; thorough: all eight
         if tier == Tier::Quick && colors.len() > 64 && name != "xterm-256" {
             continue;
